@@ -49,6 +49,42 @@ def env_pre(features):
     return pre
 
 
+def build_custom(instance, with_jobs, seed):
+    """An agent-task-family graph assembled from the library's PUBLIC building blocks with the machine nodes
+    (and job nodes) added in a shuffled order; JobShopGraph.get_machine_node / get_job_node look nodes up by
+    machine_id / job_id, nothing requires id order. Outside the four builders of the theorems: this stream is
+    judged by the extracted specification only (no model tie)."""
+    import random as _random
+
+    from job_shop_lib import graphs
+    from job_shop_lib.graphs import JobShopGraph, Node, NodeType
+
+    r = _random.Random(seed)
+    g = JobShopGraph(instance)
+    ms = list(range(instance.num_machines))
+    r.shuffle(ms)
+    for m in ms:
+        g.add_node(Node(node_type=NodeType.MACHINE, machine_id=m))
+    graphs.add_operation_machine_edges(g)
+    if with_jobs:
+        js = list(range(instance.num_jobs))
+        r.shuffle(js)
+        for j in js:
+            g.add_node(Node(node_type=NodeType.JOB, job_id=j))
+        graphs.add_operation_job_edges(g)
+        graphs.add_global_node(g)
+        graphs.add_machine_global_edges(g)
+        graphs.add_job_global_edges(g)
+    else:
+        graphs.add_machine_machine_edges(g)
+        graphs.add_same_job_operations_edges(g)
+    return g
+
+
+BUILDER_NAMES = BUILDERS + ["custom agent-task graph (public building blocks, shuffled machine nodes)",
+                            "custom complete agent-task graph (public building blocks, shuffled machine/job nodes)"]
+
+
 def enc_iscomp(updater):
     from job_shop_lib.dispatching.feature_observers import FeatureType
 
@@ -179,11 +215,15 @@ class C17(Check):
             total = sum(len(j) for j in spec)
             fs = [rng.randrange(4) for _ in range(rng.randint(1, 2))] if rng.random() < 0.35 else []
             b = rng.randrange(4)
+            custom = rng.random() < 0.08
             case = {"spec": spec, "filters": fs, "builder": b,
                     "picks": [[rng.randrange(1000), rng.randrange(1000)] for _ in range(total)]}
             if rng.random() < 0.15:
                 case["picks"] = case["picks"][:rng.randint(0, total)]
-            if rng.random() < 0.2:
+            if custom:
+                case["builder"] = rng.choice([4, 5])
+                case["shuffle"] = rng.randrange(1 << 20)
+            if rng.random() < 0.2 and not custom:
                 feats = sorted(rng.sample(range(6), rng.randint(1, 3)))
                 case["env"] = {"builder": ENV_BUILDER_INV[b], "features": feats,
                                "idle": int(rng.random() < 0.3), "padding": int(rng.random() < 0.7)}
@@ -260,7 +300,10 @@ class C17(Check):
                 raise TypeError("the environment's default graph updater is not a ResidualGraphUpdater")
             env.reset()   # first episode: reset on the freshly constructed environment
         else:
-            g = getattr(graphs, BUILDERS[case["builder"]])(instance)
+            if case["builder"] >= 4:
+                g = build_custom(instance, case["builder"] == 5, case.get("shuffle", 0))
+            else:
+                g = getattr(graphs, BUILDERS[case["builder"]])(instance)
             dispatcher = Dispatcher(instance, ready_operations_filter=session.make_filter(case["filters"]))
             for p in case["pre"]:
                 if p[0] == 0:
@@ -332,9 +375,13 @@ class C17(Check):
             # second episode: the clauses start again from the graph dispatcher.reset() left behind
             reqs.append((1702, [spec, case["filters"], nodes, after_reset[0][0],
                                 [[st[1], st[2][0], st[2][1]] for st in after_reset[1]]]))
+        first = (1702, [spec, case["filters"], nodes, state0[0], [[st[1], st[2][0], st[2][1]] for st in steps]])
+        if case["builder"] >= 4:
+            # custom graph: no model of its builder; the same layout is kept with a placeholder run on builder 1
+            return [(1701, [spec, case["filters"], 1, [], 1, 1, []]), first] + reqs
         return [
             (1701, [spec, case["filters"], case["builder"], case["pre"], case["rm_m"], case["rm_j"], events]),
-            (1702, [spec, case["filters"], nodes, state0[0], [[st[1], st[2][0], st[2][1]] for st in steps]]),
+            first,
         ] + reqs
 
     # ---- judgement ----------------------------------------------------------
@@ -343,12 +390,36 @@ class C17(Check):
         nodes, state0, steps, (op_ids_ok, same_graph), after_reset = obs
         model, oracle = outs[0], outs[1]
         spec = case["spec"]
-        if model[0] != 1:
-            return [Failure("tie", "builder-raises", "the model's builder raised on this instance")]
-        _, m0, msteps = model
+        custom = case["builder"] >= 4
         if not op_ids_ok:
             fails.append(Failure("oracle", "op-node-id-is-operation-id",
                                  "an operation node's id differs from operation.operation_id"))
+        if not custom:
+            if model[0] != 1:
+                return [Failure("tie", "builder-raises", "the model's builder raised on this instance")]
+            self.judge_tie(obs, model, fails)
+        else:
+            self.note("oracle_only_custom_graph")
+            for where, st in [("initial state", state0)] + [(f"after dispatch #{i}", x[2]) for i, x in enumerate(steps)]:
+                if not st[3]:
+                    fails.append(Failure("oracle", "digraph-node-set",
+                                         f"{where}: the DiGraph's node set is not the set of non-removed node ids"))
+                    break
+
+        # oracle: the extracted specification on the implementation's graph and rows
+        (positive, nonempty, nodup, all_used), clauses = oracle
+        in_scope = bool(nonempty and (nodup or case["builder"] != 0))
+        default_opts = bool(case["rm_m"] and case["rm_j"])
+        episodes = [("", steps, clauses)]
+        if after_reset and len(outs) > 2:
+            episodes.append(("episode 2 (after dispatcher.reset()), ", after_reset[1], outs[2][1]))
+        for ep, esteps, eclauses in episodes:
+            self.judge_episode(case, nodes, ep, esteps, eclauses, in_scope, default_opts, all_used, fails)
+        return fails
+
+    def judge_tie(self, obs, model, fails):
+        nodes, state0, steps, (op_ids_ok, same_graph), after_reset = obs
+        _, m0, msteps = model
         if not same_graph:
             fails.append(Failure("tie", "graph-object-replaced", "job_shop_graph was replaced within the episode"))
 
@@ -391,16 +462,6 @@ class C17(Check):
                     if not tie_state(f"episode 2, after dispatch #{i} {st[0]}", st[2], ms[1]):
                         break
 
-        # oracle: the extracted specification on the implementation's graph and rows
-        (positive, nonempty, nodup, all_used), clauses = oracle
-        in_scope = bool(nonempty and (nodup or case["builder"] != 0))
-        default_opts = bool(case["rm_m"] and case["rm_j"])
-        episodes = [("", steps, clauses)]
-        if after_reset and len(outs) > 2:
-            episodes.append(("episode 2 (after dispatcher.reset()), ", after_reset[1], outs[2][1]))
-        for ep, esteps, eclauses in episodes:
-            self.judge_episode(case, nodes, ep, esteps, eclauses, in_scope, default_opts, all_used, fails)
-        return fails
 
     def judge_episode(self, case, nodes, ep, steps, clauses, in_scope, default_opts, all_used, fails):
         for i, (st, cl) in enumerate(zip(steps, clauses)):
@@ -422,7 +483,7 @@ class C17(Check):
                 fails.append(Failure(
                     "oracle", name,
                     f"{ep}after dispatch #{i} {st[0]} the clause '{name}' fails on the implementation's graph "
-                    f"(builder {BUILDERS[case['builder']]})",
+                    f"(builder {BUILDER_NAMES[case['builder']]})",
                     observed={"rows": st[1], "removed": st[2][0], "edges": st[2][1], "completed": st[3],
                               "nodes": nodes}))
                 break
